@@ -188,8 +188,9 @@ class TCPPacketGenerator(Device, OutMixIn):
         self.flow = flow
         self.congestion_control = cc
 
-        # maximum segment size, in bytes
-        self.mss = 512
+        # maximum segment size, in bytes: the one the congestion controller
+        # counts its window in (a window of one `cc.mss` must admit a segment)
+        self.mss = cc.mss
         # the time when data last arrvied from the flow
         self.last_arrival = 0
 
